@@ -24,8 +24,9 @@
 (***************************************************************************)
 EXTENDS YCompare, YPathSyntax
 
-Cur(i) == [id |-> i, virt |-> <<>>]
-Virt(ids) == [id |-> 0, virt |-> ids]
+Cur(i) == [id |-> i, virt |-> <<>>, nm |-> ""]
+Virt(ids) == [id |-> 0, virt |-> ids, nm |-> ""]
+NameCur(txt) == [id |-> 0, virt |-> <<>>, nm |-> txt]     \* what [name()] yields: a key or index, not a position
 Res(cs, info) == [err |-> "", res |-> cs, info |-> info, dead |-> FALSE]
 None == Res(<<>>, FALSE)
 NoneInfo == Res(<<>>, TRUE)
@@ -35,6 +36,7 @@ Cat(a, b) == IF a.err # "" THEN a ELSE IF b.err # "" THEN b
 WithInfo(r) == [r EXCEPT !.info = TRUE]
 
 IsVirt(c) == c.id = 0
+IsName(c) == c.id = 0 /\ c.nm # ""
 KindOf(d, c) == IF IsVirt(c) THEN "seq" ELSE d[c.id].k
 Elems(d, c) == IF IsVirt(c) THEN c.virt ELSE d[c.id].kids       \* element / value / member ids
 ScalarHay(d, i) == Hay(d[i].t, d[i].v)
@@ -246,13 +248,108 @@ TraverseStep(d, c, segs, i) ==
   ELSE TravFilter(d, c.id, segs, i)
 
 (***************************************************************************)
+(* SEARCH KEYWORDS  (yamlpath/common/keywordsearches.py; property C13)     *)
+(*   has_child 77-329, name 331-383, max/min 385-795, parent 797-883,      *)
+(*   distinct/unique 886-1177; parameter splitting searchkeywordterms.py   *)
+(* Declarative definitions; `info` marks collections outside the stated    *)
+(* domain (mixed kinds, null attribute values, containers as values, ...). *)
+(***************************************************************************)
+KwParams(v) == IF v = "" THEN <<>> ELSE Split(v, ",")
+ValText(n) == IF n.t = "str" THEN n.v ELSE LitStr(TypedHay(Hay(n.t, n.v)))
+NumKind(n) == n.k = "s" /\ (n.t \in {"int", "float"} \/ (n.t = "str" /\ PyLit(n.v).ty \in {"int", "float"}))
+TextKind(n) == n.k = "s" /\ n.t = "str" /\ PyLit(n.v).ty = "raw"
+SameKind(d, ids) == (\A j \in 1..Len(ids) : NumKind(d[ids[j]])) \/ (\A j \in 1..Len(ids) : TextKind(d[ids[j]]))
+\* a > b  /  a < b  /  a = b between two scalar nodes, as the scans compare them
+Gt(d, a, b) == Matches(">", ValText(d[b]), Hay(d[a].t, d[a].v))
+Lt(d, a, b) == Matches("<", ValText(d[b]), Hay(d[a].t, d[a].v))
+SameVal(d, a, b) == IF NumKind(d[a]) /\ NumKind(d[b]) THEN NumEQ(TypedHay(Hay(d[a].t, d[a].v)), TypedHay(Hay(d[b].t, d[b].v)))
+                    ELSE d[a].t = d[b].t /\ ValText(d[a]) = ValText(d[b])
+AttrKid(d, m, p) == LET n == d[m] IN IF n.k = "map" /\ StrKeyPos(n, p) # {} THEN n.kids[CHOOSE x \in StrKeyPos(n, p) : TRUE] ELSE 0
+Depth(d, i) == Cardinality({a \in 1..Len(d) : a # i /\ IsUnder(d, i, a)})
+RECURSIVE Ancestor(_, _, _)
+Ancestor(d, i, n) == IF n = 0 THEN i ELSE Ancestor(d, d[i].par, n - 1)
+NameOf(d, i) ==   \* the key / index / member under which position i is held
+  IF d[i].par = 0 THEN "" ELSE
+  LET p == d[d[i].par] pos == ChildPos(d, i) IN
+  IF p.k = "map" THEN "k:" \o p.keys[pos].t \o ":" \o p.keys[pos].v
+  ELSE IF p.k = "seq" THEN "i:" \o NatStr(pos - 1) ELSE "m:" \o d[i].v
+
+\* members (ids) of a collection and, per member, the id of the value compared (0 = none)
+KwMembers(d, c, p) ==
+  LET kind == KindOf(d, c) es == Elems(d, c) IN
+  IF kind = "seq" /\ IsAoHNulls(d, es) THEN [j \in 1..Len(es) |-> [m |-> es[j], v |-> AttrKid(d, es[j], p)]]
+  ELSE IF kind = "map" THEN [j \in 1..Len(es) |-> [m |-> es[j], v |-> AttrKid(d, es[j], p)]]
+  ELSE [j \in 1..Len(es) |-> [m |-> es[j], v |-> IF d[es[j]].k = "s" /\ d[es[j]].t = "null" THEN 0 ELSE es[j]]]
+
+KwStep(d, c, sg) ==
+  LET ps == KwParams(sg.v) np == Len(ps) kind == KindOf(d, c) es == Elems(d, c)
+      p == IF np > 0 THEN ps[1] ELSE ""
+      quoted == HasChar(sg.v, "'") \/ HasChar(sg.v, "\"") \/ HasChar(sg.v, " ") \/ HasChar(sg.v, "\\")
+      aoh == kind = "seq" /\ IsAoHNulls(d, es)
+  IN
+  IF quoted \/ IsName(c) THEN NoneInfo
+  ELSE IF sg.kw = "has_child" THEN
+    (IF np # 1 THEN YPErr
+     ELSE IF Ch(p, 1) = "&" THEN NoneInfo                               \* anchored-child variant: not modelled
+     ELSE IF kind = "map" THEN Res(IF Cond(StrKeyPos(d[c.id], p) # {}, sg.inv) THEN <<c>> ELSE <<>>, FALSE)
+     ELSE IF kind = "seq" THEN
+        (IF \A j \in 1..Len(es) : d[es[j]].k = "map"                  \* node_is_aoh without nulls
+         THEN Res(IdsToCurs(SortIds({es[j] : j \in {x \in 1..Len(es) : Cond(StrKeyPos(d[es[x]], p) # {}, sg.inv)}})), IsVirt(c))
+         ELSE Res(IF Cond(\E j \in 1..Len(es) : d[es[j]].k = "s" /\ d[es[j]].t = "str" /\ d[es[j]].v = p, sg.inv) THEN <<c>> ELSE <<>>, TRUE))
+     ELSE IF kind = "s" /\ d[c.id].t = "null" THEN Res(IF sg.inv THEN <<c>> ELSE <<>>, TRUE)
+     ELSE YPErr)
+  ELSE IF sg.kw = "name" THEN
+    (IF np > 1 \/ sg.inv THEN YPErr
+     ELSE IF IsVirt(c) \/ d[c.id].par = 0 THEN NoneInfo
+     ELSE Res(<<NameCur(NameOf(d, c.id))>>, FALSE))
+  ELSE IF sg.kw = "parent" THEN
+    (IF np > 1 \/ sg.inv THEN YPErr
+     ELSE IF np = 1 /\ ~IsPyInt(p) THEN YPErr
+     ELSE IF IsVirt(c) THEN NoneInfo
+     ELSE LET n == IF np = 1 THEN PyIntVal(p) ELSE 1 IN
+          IF n > Depth(d, c.id) THEN YPErr
+          ELSE IF n < 1 THEN Res(<<c>>, FALSE) ELSE Res(<<Cur(Ancestor(d, c.id, n))>>, FALSE))
+  ELSE IF sg.kw \in {"max", "min", "unique", "distinct"} THEN
+    (IF np > 1 THEN YPErr
+     ELSE IF sg.kw = "distinct" /\ sg.inv THEN YPErr
+     ELSE IF kind \in {"s", "set"} THEN
+        \* a scalar (or a set) is its own maximum / minimum / only value and does not invert
+        Res(IF sg.inv THEN <<>> ELSE <<c>>, kind = "set")
+     ELSE IF (aoh \/ kind = "map") /\ np = 0 THEN YPErr
+     ELSE IF kind = "seq" /\ ~aoh /\ np = 1 THEN YPErr
+     ELSE IF kind = "map" /\ StrKeyPos(d[c.id], p) # {} /\ (\E j \in 1..Len(es) : d[es[j]].k # "map") THEN YPErr
+     ELSE
+       LET ms == KwMembers(d, c, p)
+           withv == SelectSeq(ms, LAMBDA r : r.v # 0)
+           vals == [j \in 1..Len(withv) |-> withv[j].v]
+           outside == \/ IsVirt(c)
+                      \/ ~SameKind(d, vals)
+                      \/ ((aoh \/ kind = "map") /\ (\E j \in 1..Len(ms) : LET a == AttrKid(d, ms[j].m, p) IN a # 0 /\ d[a].k = "s" /\ d[a].t = "null"))
+           best(r) == IF sg.kw = "max" THEN \A j \in 1..Len(withv) : ~Gt(d, withv[j].v, r.v)
+                      ELSE \A j \in 1..Len(withv) : ~Lt(d, withv[j].v, r.v)
+           count(r) == Cardinality({j \in 1..Len(withv) : SameVal(d, withv[j].v, r.v)})
+           first(r) == \A j \in 1..Len(withv) : SameVal(d, withv[j].v, r.v) => withv[j].m >= r.m
+           sel == IF sg.kw \in {"max", "min"} THEN
+                    (IF sg.inv THEN {ms[j].m : j \in {x \in 1..Len(ms) : ms[x].v = 0 \/ ~best(ms[x])}}
+                     ELSE {withv[j].m : j \in {x \in 1..Len(withv) : best(withv[x])}})
+                  ELSE IF sg.kw = "unique" THEN
+                    {withv[j].m : j \in {x \in 1..Len(withv) : IF sg.inv THEN count(withv[x]) > 1 ELSE count(withv[x]) = 1}}
+                  ELSE {withv[j].m : j \in {x \in 1..Len(withv) : first(withv[x])}}
+       IN \* for max/min null values are skipped; for unique/distinct over a plain list a null is a value like any other
+          IF sg.kw \in {"unique", "distinct"} /\ kind = "seq" /\ ~aoh /\ (\E j \in 1..Len(ms) : ms[j].v = 0)
+          THEN [err |-> "", res |-> <<>>, info |-> TRUE, dead |-> FALSE]
+          ELSE Res(IdsToCurs(SortIds(sel)), outside))
+  ELSE NoneInfo
+
+(***************************************************************************)
 (* dispatcher and required-match driver                                    *)
 (***************************************************************************)
 Supported(sg) == sg.ty \in {"KEY", "INDEX", "SLICE", "ANCHOR", "SEARCH", "MATCH_ALL", "TRAVERSE"}
 
 SegStep(d, c, segs, i, tl) ==
   LET sg == segs[i] IN
-  IF sg.ty = "KEY" THEN KeyStep(d, c, sg.v, segs, i, tl)
+  IF IsName(c) THEN NoneInfo
+  ELSE IF sg.ty = "KEY" THEN KeyStep(d, c, sg.v, segs, i, tl)
   ELSE IF sg.ty = "INDEX" THEN IndexStep(d, c, sg.v)
   ELSE IF sg.ty = "SLICE" THEN SliceStep(d, c, sg.v)
   ELSE IF sg.ty = "ANCHOR" THEN AnchorStep(d, c, sg.v)
@@ -260,6 +357,7 @@ SegStep(d, c, segs, i, tl) ==
   ELSE IF sg.ty = "MATCH_ALL" THEN MatchAllStep(d, c, segs, i)
   ELSE IF sg.ty = "TRAVERSE" THEN
        (IF i > 1 /\ segs[i - 1].ty = "TRAVERSE" THEN YPErr ELSE TraverseStep(d, c, segs, i))
+  ELSE IF sg.ty = "KEYWORD" THEN KwStep(d, c, sg)
   ELSE NoneInfo
 
 \* `dead`: some partial match could not be extended by the next segment (a branch the
@@ -279,4 +377,5 @@ Sel(d, segs) ==
 \* flattened positions designated by a result (virtual results by their members)
 RECURSIVE FlatIds(_)
 FlatIds(cs) == IF Len(cs) = 0 THEN <<>> ELSE (IF IsVirt(cs[1]) THEN cs[1].virt ELSE <<cs[1].id>>) \o FlatIds(Tail(cs))
+Names(cs) == SelectSeq([j \in 1..Len(cs) |-> cs[j].nm], LAMBDA x : x # "")
 =============================================================================
